@@ -47,6 +47,7 @@ fn check_trait_accessors<'a, T: ClientHello<'a>>(
         vassert!(rb.len() == random.len() - 4 && rb.as_ptr() == random[4..].as_ptr(), "C15.accessor.rand_bytes_are_the_remaining_bytes");
         vcover!(random.len() == 32 && ch.rand_time() == 0xdead_beef, "C15.cover.rand_time_nonzero");
         vcover!(random.len() == 34, "C15.cover.long_random");
+        vcover!(matches!(sid, Some(x) if x.len() == 0), "C15.cover.present_but_empty_session_id");
     } else {
         // fewer than four bytes: the property defines no value; the calls must return
         let _ = ch.rand_time();
@@ -63,8 +64,12 @@ fn c15_client_hello_constructed() {
     let rl: usize = kani::any();
     kani::assume(rl <= 34);
     let random = &pool[..rl];
-    let sid = if kani::any() { Some(&pool[34..36]) } else { None };
-    let ext = if kani::any() { Some(&pool[36..40]) } else { None };
+    // session id / extension block: absent, present-but-empty, or present with bytes
+    let sl: usize = kani::any();
+    let el: usize = kani::any();
+    kani::assume(sl <= 2 && el <= 4);
+    let sid = if kani::any() { Some(&pool[34..34 + sl]) } else { None };
+    let ext = if kani::any() { Some(&pool[36..36 + el]) } else { None };
     let v: u16 = kani::any();
     let mut ciphers = Vec::new();
     if kani::any() {
@@ -109,8 +114,11 @@ fn c15_client_hello_cipher_lookup() {
 #[kani::unwind(4)]
 fn c15_server_hello_constructed() {
     let pool: [u8; 38] = kani::any();
-    let sid = if kani::any() { Some(&pool[32..34]) } else { None };
-    let ext = if kani::any() { Some(&pool[34..38]) } else { None };
+    let sl: usize = kani::any();
+    let el: usize = kani::any();
+    kani::assume(sl <= 2 && el <= 4);
+    let sid = if kani::any() { Some(&pool[32..32 + sl]) } else { None };
+    let ext = if kani::any() { Some(&pool[34..34 + el]) } else { None };
     let v: u16 = kani::any();
     let c: u16 = kani::any();
     let m: u8 = kani::any();
